@@ -1829,7 +1829,14 @@ func (s *SelectStatement) String() string {
 	case NoFill:
 		_, _ = buf.WriteString(" fill(none)")
 	case NumberFill:
-		_, _ = buf.WriteString(fmt.Sprintf(" fill(%v)", s.FillValue))
+		if v, ok := s.FillValue.(float64); ok {
+			// print it the way number literals are printed: %v switches to exponent notation for large and
+			// small values (which the scanner does not read) and drops the fraction of whole numbers (which
+			// would come back as an integer fill value)
+			_, _ = buf.WriteString(" fill(" + (&NumberLiteral{Val: v}).String() + ")")
+		} else {
+			_, _ = buf.WriteString(fmt.Sprintf(" fill(%v)", s.FillValue))
+		}
 	case LinearFill:
 		_, _ = buf.WriteString(" fill(linear)")
 	case PreviousFill:
